@@ -66,7 +66,7 @@ Example C15_kt_multi_nonvacuous :
   | [a; b] =>
     w15_good a C15kt (flat_map c15_item_docs_helpers_first (items_of c15_ktnv_pd)) ["package com.example.proto.alpha"] &&
     w15_good b C15kt (flat_map c15_item_docs_helpers_first (items_of w15_kt_beta))
-             ["package com.example.proto.beta"; "import com.example.proto.alpha.Color"; "import com.example.proto.alpha.Foo"; "data class MyHolder ("]
+             ["package com.example.proto.beta"; "import com.example.proto.alpha.MyColor"; "import com.example.proto.alpha.MyFoo"; "data class MyHolder ("]
   | _ => false
   end = true.
 Proof. repeat split; vm_compute; reflexivity. Qed.
